@@ -104,10 +104,15 @@ func fill(o *Obs, err error) {
 	o.R = 0
 	o.Msg = err.Error()
 	var pe *oj.ParseError
+	var ge *gen.ParseError
 	if errors.As(err, &pe) {
 		o.PE = true
 		o.Line = pe.Line
 		o.Col = pe.Column
+	} else if errors.As(err, &ge) {
+		o.PE = true
+		o.Line = ge.Line
+		o.Col = ge.Column
 	}
 }
 
